@@ -3,7 +3,8 @@ import json, os
 
 RULE = ("TLC enumerates C07 configurations with momentum and schedulers x check interval in {1, 2} x every interruption "
         "step k < N = 4 at which a checkpoint is written, keeping those inside the rational budget; each = three real fits "
-        "(uninterrupted with the weight-saving callback; interrupted at k; resumed from the file in fresh objects); "
+        "(uninterrupted with the weight-saving callback; interrupted at k; resumed from the file in fresh objects); optimizers: SGD "
+        "(+momentum) and the two-evaluation optimizer of Training.tla (two closure calls per step, a python int in its state); "
         "non-trivial = every scenario")
 
 
@@ -13,7 +14,9 @@ def run(ctx):
     else:
         scen = ctx.gen("Gen_C07", "Gen_C19", timeout=900)
         if ctx.quick:
-            scen = sorted(ctx.rng.sample(scen, min(len(scen), 90)), key=lambda s: json.dumps(s, sort_keys=True))
+            two = [s for s in scen if s["cfg"].get("opt") == "two"]
+            sgd = [s for s in scen if s["cfg"].get("opt") != "two"]
+            scen = sorted(ctx.rng.sample(sgd, min(len(sgd), 70)) + ctx.rng.sample(two, min(len(two), 30)), key=lambda s: json.dumps(s, sort_keys=True))
     tmp = os.path.join(ctx.work, "tmp")
     os.makedirs(tmp, exist_ok=True)
     traces = ctx.drive("c19", scen, timeout=3000, shards=14, env={"VERIF_TMP": tmp})
